@@ -1,8 +1,10 @@
 #!/usr/bin/env python3
 """Development proof of sensitivity (not registered in MANIFEST): apply each deliberate breakage
-to /repo's working tree, confirm the baseline suite still passes, run the named checks, expect
-exit 1 from at least the first one, and revert /repo. Usage: mutants.py [name ...] [--no-tests]"""
-import subprocess, sys, json, time
+to a scratch copy of /repo's working tree (never to /repo: tools/scratch.py), confirm the baseline suite
+still passes there, run the named checks on the copy, expect exit 1 from at least the first one. Usage: mutants.py [name ...] [--no-tests]"""
+import subprocess, sys, json, time, os
+sys.path.insert(0, os.path.dirname(os.path.abspath(__file__)))
+import scratch
 
 REPO = "/repo"
 M = []
@@ -123,41 +125,34 @@ for m in M:
 def sh(cmd, **kw):
     return subprocess.run(cmd, shell=True, capture_output=True, text=True, **kw)
 
-def revert():
-    sh(f"git -C {REPO} checkout -- .")
-
 def main():
     args = [a for a in sys.argv[1:] if not a.startswith("--")]
     no_tests = "--no-tests" in sys.argv
     results = []
-    assert sh(f"git -C {REPO} status --porcelain").stdout.strip() == "", "/repo not clean"
     for m in M:
         if args and m["name"] not in args:
             continue
-        path = f"{REPO}/{m['file']}"
-        src = open(path).read()
-        if src.count(m["old"]) != m["count"]:
-            results.append((m["name"], "PATCH-DOES-NOT-APPLY", src.count(m["old"])))
-            print(results[-1]); continue
-        open(path, "w").write(src.replace(m["old"], m["new"]))
-        try:
+        # never touches /repo: the breakage goes into a scratch copy, which ./check then decides (scratch.py)
+        with scratch.copy_of_repo() as (repo, env):
+            path = f"{repo}/{m['file']}"
+            src = open(path).read()
+            if src.count(m["old"]) != m["count"]:
+                results.append((m["name"], "PATCH-DOES-NOT-APPLY", src.count(m["old"])))
+                print(results[-1]); continue
+            open(path, "w").write(src.replace(m["old"], m["new"]))
             row = {"name": m["name"]}
             if not no_tests:
-                t = sh(f"cd {REPO} && cargo test --workspace --no-fail-fast --offline 2>&1 | grep -E '^test result|error(\\[|:)' ")
+                t = sh(f"cd {repo} && CARGO_TARGET_DIR={scratch.ROOT}/out/suite cargo test --workspace --no-fail-fast --offline 2>&1 | grep -E '^test result|error(\\[|:)' ")
                 failed = [l for l in t.stdout.splitlines() if "error" in l or (" failed" in l and "; 0 failed" not in l)]
                 row["baseline"] = "pass" if not failed else "FAIL: " + "; ".join(failed[:3])
             for c in m["checks"]:
                 t0 = time.time()
-                r = sh(f"/verif/check {c}")
+                r = sh(f"/verif/check {c}", env=env)
+                assert "SCRATCH: deciding" in r.stdout, r.stdout[:500]
                 viol = [l for l in r.stdout.splitlines() if l.startswith("VIOLATION") or l.startswith("violation") or l.startswith("HARNESS")]
                 row[c] = f"exit={r.returncode} {time.time()-t0:.0f}s " + (viol[0][:160] if viol else "")
             results.append(row)
             print(json.dumps(row), flush=True)
-        finally:
-            revert()
     sh("rm -rf /verif/replays")
 if __name__ == "__main__":
-    try:
-        main()
-    finally:
-        revert()
+    main()
